@@ -826,3 +826,73 @@ theorem dispatch_snd (c m r : Bytes) : (dispatch c m r).2 = r := by
     | ok x => rfl
     | error e => rfl
 end BtcVerif
+
+namespace BtcVerif
+open Model.Wire Model.Msg
+
+/-- whatever `stream_deserialize` returns came from a frame that passes every header test, and
+    exactly that frame was consumed -/
+theorem streamDeserialize_ok_valid (magic s : Bytes) (m : Option Msg) (r : Bytes)
+    (h : streamDeserialize magic s = (.ok m, r)) :
+    24 ≤ s.length ∧ s.take 4 = magic ∧ declaredLen s ≤ MAX_SIZE ∧ 24 + declaredLen s ≤ s.length ∧
+    (s.drop 20).take 4 = Model.Msg.checksum ((s.drop 24).take (declaredLen s)) ∧
+    r = s.drop (24 + declaredLen s) := by
+  by_cases hs : s.length < 24
+  · rw [streamDeserialize_short magic s hs] at h; simp at h
+  · rw [streamDeserialize_unfold magic s (by omega)] at h
+    by_cases c1 : s.take 4 ≠ magic
+    · rw [if_pos c1] at h; simp at h
+    · rw [if_neg c1] at h
+      by_cases c2 : declaredLen s > MAX_SIZE
+      · rw [if_pos c2] at h; simp at h
+      · rw [if_neg c2] at h
+        by_cases c3 : s.length - 24 < declaredLen s
+        · rw [if_pos c3] at h; simp at h
+        · rw [if_neg c3] at h
+          by_cases c4 : (s.drop 20).take 4 ≠ Model.Msg.checksum ((s.drop 24).take (declaredLen s))
+          · rw [if_pos c4] at h; simp at h
+          · rw [if_neg c4] at h
+            have hr : r = s.drop (24 + declaredLen s) := by
+              have := congrArg Prod.snd h
+              rw [dispatch_snd] at this
+              exact this.symm
+            exact ⟨by omega, by simpa using c1, by omega, by omega, by simpa using c4, hr⟩
+
+theorem streamDeserialize_ok_shorter (magic s : Bytes) (m : Option Msg) (r : Bytes)
+    (h : streamDeserialize magic s = (.ok m, r)) : r.length < s.length := by
+  obtain ⟨h1, _, _, h4, _, h6⟩ := streamDeserialize_ok_valid magic s m r h
+  rw [h6, List.length_drop]
+  omega
+
+/-- enough fuel is enough: the loop's result does not depend on the fuel once it covers the stream -/
+theorem parseAllAux_fuel (magic : Bytes) : ∀ (f1 f2 : Nat) (s : Bytes), s.length ≤ f1 → s.length ≤ f2 →
+    parseAllAux magic f1 s = parseAllAux magic f2 s := by
+  intro f1
+  induction f1 with
+  | zero =>
+    intro f2 s h1 _
+    have hs : s = [] := List.eq_nil_of_length_eq_zero (by omega)
+    subst hs
+    cases f2 <;> simp [parseAllAux]
+  | succ f1 ih =>
+    intro f2 s h1 h2
+    cases f2 with
+    | zero =>
+      have hs : s = [] := List.eq_nil_of_length_eq_zero (by omega)
+      subst hs
+      simp [parseAllAux]
+    | succ f2 =>
+      simp only [parseAllAux]
+      by_cases he : s.isEmpty = true
+      · simp [he]
+      · simp only [he, Bool.false_eq_true, if_false]
+        cases hsd : streamDeserialize magic s with
+        | mk out r =>
+          cases out with
+          | error e => rfl
+          | ok m =>
+            have := streamDeserialize_ok_shorter magic s m r hsd
+            simp only
+            rw [ih f2 r (by omega) (by omega)]
+
+end BtcVerif
